@@ -188,6 +188,10 @@ def reduce_trace_json(path, fn_suffix, max_step_bytes=1 << 20):
     return "".join(out)
 
 
+import threading
+_PARSE_LOCK = threading.Lock()
+
+
 def run_harness(h, workdir, timeout=600, trace=False):
     """Run one harness through the kani-driver pipeline. Returns a result dict."""
     os.makedirs(workdir, exist_ok=True)
@@ -277,18 +281,23 @@ def run_harness(h, workdir, timeout=600, trace=False):
     if rc is None:
         res.update(status="undecided", reason="cbmc timed out after %ds" % timeout)
         return res
-    try:
-        doc = json.loads(so)
-    except Exception as ex:  # noqa
-        res.update(status="undecided", reason="cbmc output not JSON (rc=%s): %s %s" % (rc, so[-500:], se[-500:]))
-        return res
-    results = None
-    msgs = []
-    for o in doc:
-        if isinstance(o, dict) and "result" in o:
-            results = o["result"]
-        elif isinstance(o, dict) and o.get("messageType") == "ERROR":
-            msgs.append(o.get("messageText", ""))
+    # CBMC's JSON for a harness over the BTP session or the session table is hundreds of MB; parsed it is several GB.
+    # One harness is parsed at a time (the solver runs stay parallel), and only the result list is kept.
+    with _PARSE_LOCK:
+        try:
+            doc = json.loads(so)
+        except Exception as ex:  # noqa
+            res.update(status="undecided", reason="cbmc output not JSON (rc=%s): %s %s" % (rc, so[-500:], se[-500:]))
+            return res
+        del so
+        results = None
+        msgs = []
+        for o in doc:
+            if isinstance(o, dict) and "result" in o:
+                results = o["result"]
+            elif isinstance(o, dict) and o.get("messageType") == "ERROR":
+                msgs.append(o.get("messageText", ""))
+        del doc
     if results is None:
         res.update(status="undecided", reason="cbmc produced no result (rc=%s): %s" % (rc, " | ".join(msgs)[-1500:]))
         return res
